@@ -65,6 +65,10 @@ func (c *Ctx) Sample(s interface{}) {
 	}
 }
 func (c *Ctx) Monitor(sig, what string, cs interface{}) {
+	// shared scenario runners evaluate several properties; a check reports only its own
+	if len(sig) > 4 && sig[0] == 'C' && sig[3] == '/' && sig[:3] != c.Stats.Property {
+		return
+	}
 	c.Stats.Monitor = append(c.Stats.Monitor, MonitorFinding{sig, what, cs})
 }
 
